@@ -45,6 +45,7 @@ namespace bxdecay0 {
 
   void Sb126(i_random & prng_, event & event_, const double tcnuc_, double & tdnuc_)
   {
+    BXDECAY0_VERIF_SCOPE("scheme:Sb126", tcnuc_);
     double t;
     double tdlev;
     double p;
